@@ -7,7 +7,7 @@ WT="$(mktemp -d /tmp/vseed-XXXXXX)"; rmdir "$WT"
 git -C /repo worktree add -q --detach "$WT" HEAD || exit 9
 trap 'git -C /repo worktree remove --force "$WT" >/dev/null 2>&1; rm -rf "$WT"' EXIT
 cp /repo/src/urllib3/_version.py "$WT/src/urllib3/_version.py"
-run_demo() { ( cd "$WT" && if grep -q "^def test_\|^import pytest\|^class Test" "$SRC/demo.py" && ! grep -q "__main__" "$SRC/demo.py"; then PYTHONPATH="$WT/src" timeout 120 /venv/bin/python -m pytest -q -p no:cacheprovider "$SRC/demo.py"; else PYTHONPATH="$WT/src" timeout 120 /venv/bin/python "$SRC/demo.py"; fi ) >/dev/null 2>&1; echo $?; }
+run_demo() { ( cd "$WT" && if grep -q "^def test_\|^import pytest\|^class Test" "$SRC/demo.py" && ! grep -q "__main__" "$SRC/demo.py"; then URLLIB3_SRC="$WT/src" PYTHONPATH="$WT/src" timeout 120 /venv/bin/python -m pytest -q -p no:cacheprovider "$SRC/demo.py"; else URLLIB3_SRC="$WT/src" PYTHONPATH="$WT/src" timeout 120 /venv/bin/python "$SRC/demo.py"; fi ) >/dev/null 2>&1; echo $?; }
 D0=$(run_demo)
 if ! git -C "$WT" apply "$SRC/patch.diff" 2>/tmp/vseed-apply.err; then
   if ! ( cd "$WT" && patch -p1 -s --fuzz=3 < "$SRC/patch.diff" ); then echo "$PROP $NAME: PATCH DOES NOT APPLY"; exit 8; fi
